@@ -91,8 +91,10 @@ theorem once_notifyEvent (j : Job) (c c' : Ctl) (ev : Event) (h : Once c)
     exact once_considerComputable _ ds (h.congr (by simp) (by simp) (by simp) (by simp))
   | pubW w ds =>
     simp only [notifyEvent] at hr
-    have h1 : Once (considerComputable (considerFetch j (markAvailable c w.host ds) ds w.host) ds) :=
+    have h0 : Once (considerComputable (considerFetch j (markAvailable c w.host ds) ds w.host) ds) :=
       once_considerComputable _ ds (h.congr (by simp) (by simp) (by simp) (by simp))
+    have h1 : Once (markPublished (considerComputable (considerFetch j (markAvailable c w.host ds) ds w.host) ds) ds) :=
+      h0.congr (by simp) (by simp) (by simp) (by simp)
     split at hr
     · split at hr
       · cases hr
